@@ -261,6 +261,55 @@ def array(ctx, name, shape, dtype='real', fact=None):
     return Arr(shape, fn, dtype, name=name)
 
 
+class FuncDecl(object):
+    """uninterpreted real function input (an unknown backend function): a counter-model is written down as the table of the applications made on the path"""
+    def __init__(self, name):
+        self.name, self.apps = name, []
+
+    def concretise(self, model):
+        rows = []
+        for args, v in self.apps:
+            try:
+                rows.append([_j(model_value(model, a)) for a in args] + [_j(model_value(model, v))])
+            except Exception:
+                continue
+        return dict(table=rows)
+
+
+def ufunc(ctx, name, nargs, fact=None):
+    """an arbitrary function of `nargs` real arguments (e.g. a quantity returned by the thermodynamics backend); `fact(value, *args)` is assumed at every
+    application.  In a replay: the table of the counter-model (nearest recorded argument tuple; 1/2 where the model says nothing)"""
+    if getattr(ctx, 'replay', False):
+        m = ctx.model.get(name)
+        def cv(x):
+            if isinstance(x, dict) and 'frac' in x:
+                n, d = x['frac'].split('/')
+                return Fraction(int(n), int(d))
+            return x
+        rows = [[cv(x) for x in r] for r in (m.get('table', []) if isinstance(m, dict) else [])]
+
+        def g(*a):
+            a = [float(sym._generic(x)) for x in a]
+            best, bd = Fraction(1, 2), None
+            for r in rows:
+                d = sum(abs(float(p) - q) / (abs(q) + 1e-300) for p, q in zip(r[:-1], a))
+                if bd is None or d < bd:
+                    best, bd = r[-1], d
+            return best
+        return g
+    F = z3.Function(name, *([sym.R] * (nargs + 1)))
+    decl = FuncDecl(name)
+    ctx.inputs.append(decl)
+
+    def f(*a):
+        v = SV(F(*[zterm(x, True) for x in a]))
+        decl.apps.append((a, v))
+        if fact is not None:
+            ctx.assume(fact(v, *a))
+        return v
+    return f
+
+
 def new_obj(interp, dotted, clsname, **fields):
     cls = interp.get(dotted, clsname)
     o = Obj(cls)
